@@ -1,0 +1,83 @@
+//go:build verif
+
+package server
+
+import (
+	"sort"
+
+	"github.com/fatedier/frp/pkg/util/vhost"
+	"github.com/fatedier/frp/server/ports"
+)
+
+// VerifSession describes one live control session.
+type VerifSession struct {
+	RunID     string
+	User      string
+	Proxies   []string
+	PortsUsed int
+	PoolLen   int
+	PoolCap   int
+	PoolCount int
+}
+
+// VerifSnapshot is a copy of the server's tables, each read under the lock the
+// code itself uses for that table. It is only compiled with -tags verif.
+type VerifSnapshot struct {
+	Sessions       []VerifSession
+	ProxyNames     []string
+	HTTPRoutes     []vhost.VerifRoute
+	HTTPSRoutes    []vhost.VerifRoute
+	TCPMuxRoutes   []vhost.VerifRoute
+	Visitors       []string
+	NatHoleClients []string
+	NatHoleSess    []string
+	TCPGroups      map[string]int
+	TCPMuxGroups   map[string]int
+	HTTPGroups     map[string][]string
+	TCPPorts       ports.VerifPortsSnapshot
+	UDPPorts       ports.VerifPortsSnapshot
+}
+
+func (svr *Service) VerifSnapshot() VerifSnapshot {
+	var s VerifSnapshot
+
+	svr.ctlManager.mu.RLock()
+	ctls := make(map[string]*Control, len(svr.ctlManager.ctlsByRunID))
+	for id, c := range svr.ctlManager.ctlsByRunID {
+		ctls[id] = c
+	}
+	svr.ctlManager.mu.RUnlock()
+	for id, c := range ctls {
+		vs := VerifSession{RunID: id, User: c.loginMsg.User, PoolCount: c.poolCount}
+		c.mu.RLock()
+		for n := range c.proxies {
+			vs.Proxies = append(vs.Proxies, n)
+		}
+		vs.PortsUsed = c.portsUsedNum
+		c.mu.RUnlock()
+		vs.PoolLen = len(c.workConnCh)
+		vs.PoolCap = cap(c.workConnCh)
+		sort.Strings(vs.Proxies)
+		s.Sessions = append(s.Sessions, vs)
+	}
+	sort.Slice(s.Sessions, func(i, j int) bool { return s.Sessions[i].RunID < s.Sessions[j].RunID })
+
+	s.ProxyNames = svr.pxyManager.VerifNames()
+	s.HTTPRoutes = svr.httpVhostRouter.VerifRoutes()
+	if svr.rc.VhostHTTPSMuxer != nil {
+		s.HTTPSRoutes = svr.rc.VhostHTTPSMuxer.VerifRoutes()
+	}
+	if svr.rc.TCPMuxHTTPConnectMuxer != nil {
+		s.TCPMuxRoutes = svr.rc.TCPMuxHTTPConnectMuxer.VerifRoutes()
+	}
+	s.Visitors = svr.rc.VisitorManager.VerifNames()
+	if svr.rc.NatHoleController != nil {
+		s.NatHoleClients, s.NatHoleSess = svr.rc.NatHoleController.VerifSnapshot()
+	}
+	s.TCPGroups = svr.rc.TCPGroupCtl.VerifGroups()
+	s.TCPMuxGroups = svr.rc.TCPMuxGroupCtl.VerifGroups()
+	s.HTTPGroups = svr.rc.HTTPGroupCtl.VerifGroups()
+	s.TCPPorts = svr.rc.TCPPortManager.VerifSnapshot()
+	s.UDPPorts = svr.rc.UDPPortManager.VerifSnapshot()
+	return s
+}
